@@ -79,6 +79,26 @@ def encode (e : Enc) (au : List Bytes) : Enc × Option (List Pkt) :=
   ({ e with seq := e.seq + UInt16.ofNat items.length },
    if ok then some (number e.cfg e.seq items) else none)
 
+/-! ### validity predicates (the encoder's documented precondition, made exact) -/
+
+/-- `PayloadMaxSize ≥ 4` (3 divides by zero in `packetCount`) and at most 65535. -/
+def ValidCfg (c : EncCfg) : Prop := 4 ≤ c.max ∧ c.max ≤ 65535
+
+/-- a NALU the codec transports unchanged: at least the 2-byte header, type not one of the RTP
+aggregation / fragmentation / PACI types 48..50, no `00 00 01` inside. -/
+def ValidNalu (n : Bytes) : Prop :=
+  2 ≤ n.length ∧
+  ¬ (48 ≤ ((n.headD 0 >>> 1) &&& 0x3F).toNat ∧ ((n.headD 0 >>> 1) &&& 0x3F).toNat ≤ 50) ∧
+  findSC n = none
+
+/-- an access unit: 1..MaxNALUsPerAccessUnit valid NALUs, at most MaxAccessUnitSize bytes -/
+def ValidFrame (au : List Bytes) : Prop :=
+  au ≠ [] ∧ au.length ≤ maxNALUs ∧ totalLen au ≤ maxAU ∧ ∀ n ∈ au, ValidNalu n
+
+instance (c : EncCfg) : Decidable (ValidCfg c) := by unfold ValidCfg; infer_instance
+instance (n : Bytes) : Decidable (ValidNalu n) := by unfold ValidNalu; infer_instance
+instance (au : List Bytes) : Decidable (ValidFrame au) := by unfold ValidFrame; infer_instance
+
 /-! ### decoder -/
 
 structure Dec where
